@@ -98,7 +98,7 @@ Section TopicInvariant.
       rewrite Forall_forall in *. intros tp' Hin. apply in_map_iff in Hin. destruct Hin as [tp [<- Hin]].
       destruct (N.eqb_spec (t_id tp) t) as [E|E]; [|apply H1, Hin].
       apply TP_counts. apply TP_pub; [apply Hp; assumption|apply H1, Hin].
-    - cbn [fst]. apply AT_clients, H.
+    - destruct (find_client s k); cbn [fst]; [exact H|]. apply AT_clients, H.
     - destruct (find_client s k) as [kl|]; cbn [fst]; [|exact H].
       destruct ((k_state kl =? st_init) && k_alive kl); cbn [fst]; [|exact H].
       apply AT_pump_topic. apply AT_upd_client. apply AT_upd_chan; [apply Q_clients|apply AT_ensure_chan, H].
